@@ -290,3 +290,13 @@ func Quiesce() { quiesceNative() }
 // LiveGoroutines returns how many goroutines started by the harness have not
 // finished (symgo only; natively -1 = unknown).
 func LiveGoroutines() int { return liveNative() }
+
+// StubFunc replaces the function or method named name (as printed by
+// go/ssa, e.g. "(*pkg/path.T).Method" or "pkg/path.Func") by impl for the
+// rest of the path (symgo only). impl receives the same arguments (receiver
+// first). Harnesses that use it cannot be replayed natively; their
+// counterexamples are confirmed by deterministic re-execution in the
+// executor with the model's concrete values.
+func StubFunc(name string, impl interface{}) {
+	panic("verifrt.StubFunc: not available natively")
+}
